@@ -51,6 +51,27 @@ PROPS["C11"] = dict(
     assumptions=["element/actor/marker types are lawful total orders", "u64 counters do not overflow (Rust would panic/wrap; model uses Nat)"],
 )
 
+ORSWOT_PROFILES = [
+    dict(name="orswot_fifo", quick=1500, thorough=30000),
+    dict(name="orswot_causal", quick=700, thorough=15000),
+    dict(name="orswot_fifo_ops", quick=500, thorough=10000),
+    dict(name="orswot_any", quick=500, thorough=10000),
+]
+
+PROPS["C04"] = dict(
+    lean_targets=["CrdtModel.Props.C04"],
+    audit="CrdtModel/Audit/C04.lean",
+    required_theorems=["Crdt.C04.member_iff", "Crdt.C04.contains_rm_clock", "Crdt.C04.add_wins", "Crdt.C04.removed_if_all_covered"],
+    profiles=ORSWOT_PROFILES,
+    oracle_fields=["read", "rc", "rctx", "c0", "c1", "c2", "c3", "iter"],
+    explanation="Orswot representation theorem (rep_apply_add, rep_apply_rm, rep_merge) under per-actor order on adds only; C04 = the spec unfolded. "
+                "Correspondence: random histories with API-generated add/add_all/rm/rm_all (contexts from contains/read/read_ctx and hand-made future contexts), "
+                "FIFO/causal/any-order delivery, duplicates, merges, snapshots; every read entry point and the full private state compared; the Lean spec state "
+                "computed from the knowledge set is compared with the implementation at every step where the history respected the discipline.",
+    statement_coverage="full statement proved",
+    assumptions=["each actor edits at one replica and a dot names one add (LogWF)", "remove contexts come from reads (no stored zero)"],
+)
+
 # --------------------------------------------------------------------------------------------
 # text for MANIFEST.json
 # --------------------------------------------------------------------------------------------
@@ -72,5 +93,12 @@ MANIFEST_TEXT["C11"] = dict(
          "LWWReg the write with the greatest marker (unique markers) and flags equal-marker/different-value exactly, GSet the union; inc_many adds exactly k at the origin. "
          "Model tied to the code by differential histories with spec values compared against the implementation.",
     note=NOTE, technique="Lean 4 proof (representation invariant by induction over derivations) + differential correspondence check", design_ref="DESIGN.md §7 C11")
+
+MANIFEST_TEXT["C04"] = dict(
+    text="Unbounded Lean theorem: in every derivable replica state (any number of replicas/actors/members, any interleaving that keeps each actor's adds in order, "
+         "removes in any order incl. before what they observed, duplicates, merges of live/stale states) a member is read iff some known add of it is not covered by "
+         "any known remove of it; contains(m).rm_clock is exactly the surviving witnesses; add wins. Proved via a representation invariant through apply and merge "
+         "(per-(member,actor) arithmetic closed by omega). Model tied to code by differential histories.",
+    note=NOTE, technique="Lean 4 proof (representation invariant through apply/merge) + differential correspondence check", design_ref="DESIGN.md §7 C04")
 
 NOT_APPLICABLE = {f"C{i:02d}": "check under construction in this session (model + theorems not yet committed); will be claimed, not switched to another technique" for i in range(1, 21)}
